@@ -94,6 +94,17 @@ func runC08(raw json.RawMessage, w *Writer) {
 			input = arena
 		}
 		pristine := cloneBytes(input)
+		// the input is a window of a larger caller buffer: what lies behind it (within the capacity) is the caller's
+		// next data, e.g. the next access unit of the same stream buffer (it begins with a 4-byte start code here)
+		var behind, behindBefore []byte
+		if input != nil {
+			behind = input[len(input):cap(input)]
+			for i := range behind {
+				behind[i] = 0xC3
+			}
+			copy(behind, []byte{0, 0, 0, 1, 0x65})
+			behindBefore = cloneBytes(behind)
+		}
 		var frags, tfrags [][]byte
 		r, msg := guard(func() { frags = p.Payload(uint16(call.Mtu), input) })
 		guard(func() { tfrags = twin.Payload(uint16(call.Mtu), cloneBytes(pristine)) })
@@ -110,7 +121,7 @@ func runC08(raw json.RawMessage, w *Writer) {
 			}
 		}
 		w.Emit(Ev{"ev": "payload", "k": k, "kind": c.Kind, "mtu": call.Mtu, "shape": call.Shape, "inlen": len(input), "isnil": input == nil,
-			"res": r, "diag": msg, "lens": lens, "input_unchanged": bytes.Equal(input, pristine), "twin_equal": twinEq})
+			"res": r, "diag": msg, "lens": lens, "input_unchanged": bytes.Equal(input, pristine), "behind_input_unchanged": bytes.Equal(behind, behindBefore), "twin_equal": twinEq})
 		if r != "ok" {
 			return
 		}
